@@ -18,5 +18,6 @@ CONSTANTS
   TickOn = TRUE
   MaxNow = 16
   Depth = 60
+  ClientOps <- AllOps
 INVARIANTS PrintSchedule UsedIsSum Agree Conservation NeverTwice NoOrphan
 CHECK_DEADLOCK FALSE
